@@ -834,6 +834,13 @@ def check_property(prop, tier, seed):
 
     # (5) pure probes
     probe = run_probe(prop, tier, seed, th) if P.get('probe') else None
+    if prop == 'C19' and probe is not None:
+        # a stored record survives only if its key is its own: the key-constructor probe of C17 (a second key built
+        # before the first is read, every component shape) also runs for C19
+        p17 = run_probe('C17', tier, seed, th)
+        probe = dict(probe)
+        probe['violations'] = list(probe.get('violations', [])) + [v for v in p17.get('violations', []) if v.get('failing_input', '').startswith('key ')]
+        probe['evaluations'] = probe.get('evaluations', 0) + p17.get('evaluations', 0)
     det = run_determinism(tier, seed, th) if P.get('determinism') else None
 
     findings = [f for f in load_findings() if f.get('property') == prop and f.get('kind') == 'known']
